@@ -1046,4 +1046,76 @@ def r01_6(ctx):
     return out
 
 
-RULES = [r01_1, r01_2, r01_3, r01_4, r01_5, r01_6]
+class _NP(StandIn):
+    """named point: equal iff same name"""
+
+    def __init__(self, name):
+        self.name = name
+
+    def __eq__(self, o):
+        return isinstance(o, _NP) and o.name == self.name
+
+    def __ne__(self, o):
+        return not self.__eq__(o)
+
+    def __hash__(self):
+        return hash(self.name)
+
+    def __repr__(self):
+        return self.name
+
+
+class _CurveP(StandIn):
+    """closed chain of quadratic pieces; `p in curve` for its control end points"""
+
+    def __init__(self, name, ends):
+        self.name = name
+        n = len(ends)
+        self.segments = tuple(Obj(f"{name}s{i}", degree=2, npts=3,
+                                  ctrlpoints=(ends[i], _NP(f"{name}m{i}"), ends[(i + 1) % n])) for i in range(n))
+        vs = []
+        for sg in self.segments:
+            for pnt in sg.ctrlpoints:
+                if not any(pnt is v for v in vs):
+                    vs.append(pnt)
+        self.vertices = tuple(vs)
+        self.ends = list(ends)
+
+    def __contains__(self, pnt):
+        return any(pnt == e for e in self.ends)
+
+    def __repr__(self):
+        return self.name
+
+
+def r01_7(ctx):
+    """abstract run (W) of pursue_path on two closed chains of *curved* pieces that cross at X and Y: the chain of
+    (curve, piece) indices must follow each curve until its end point lies on the other curve and continue there with
+    the piece that starts at that point"""
+    from verifkit.finite import Raised
+    out = Outcome("R01.7", "pursue_path chains the pieces: after piece (a, b) comes (a, b+1) unless its end point lies on "
+                           "another curve, in which case the piece of that curve which starts there (by segment index, "
+                           "also for curved pieces with interior control points)", floor=2)
+    fn = ctx.fn("shape.FollowPath.pursue_path")
+    P0, P1, Q0, X, Y = (_NP(n) for n in ("P0", "P1", "Q0", "X", "Y"))
+    J0 = _CurveP("J0", [P0, X, P1, Y])            # pieces P0-X, X-P1, P1-Y, Y-P0
+    J1 = _CurveP("J1", [X, Y, Q0])                # pieces X-Y, Y-Q0, Q0-X
+    cases = [((0, 1), ((0, 1), (0, 2), (1, 1), (1, 2))), ((1, 1), ((1, 1), (1, 2), (0, 1), (0, 2))),
+             ((0, 5), ((0, 1), (0, 2), (1, 1), (1, 2))),          # the start index wraps around
+             ((1, 0), ((1, 0), (0, 3), (0, 0)))]                  # the other cycle: X-Y on J1, then Y-P0, P0-X on J0
+    for (a, b), want in cases:
+        try:
+            got = Runner(ctx, set(), None).call_fn(fn, [a, b, (J0, J1)])
+        except (Undecided, Raised) as ex:
+            out.undecided(fn.qname, f"start ({a}, {b}): {ex}", where=fn.where())
+            continue
+        got = tuple(tuple(x) for x in got)
+        if got == want:
+            out.ok(fn.qname, f"start ({a}, {b}) -> {got}", where=fn.where())
+        else:
+            out.bad(fn.qname, "the chain of boundary pieces is not followed correctly", where=fn.where(),
+                    detail=f"start ({a}, {b}) on curves P0-X-P1-Y and X-Y-Q0 (quadratic pieces): got {got}, required {want}")
+    return out
+
+
+RULES = [r01_1, r01_2, r01_3, r01_4, r01_5, r01_6, r01_7]
